@@ -311,6 +311,14 @@ type CommonFG struct {
 	Identifier
 	file *File
 	node *Node
+	path string
+}
+
+func (g *CommonFG) absPath(name string) string {
+	if strings.HasPrefix(name, "/") {
+		return "/" + strings.Join(splitPath(name), "/")
+	}
+	return "/" + strings.Join(append(splitPath(g.path), splitPath(name)...), "/")
 }
 
 type File struct {
@@ -328,6 +336,7 @@ type Dataset struct {
 	Identifier
 	file *File
 	node *Node
+	path string
 }
 
 type Dataspace struct {
@@ -429,6 +438,7 @@ func (g *CommonFG) OpenGroup(name string) (*Group, error) {
 	r := &Group{}
 	r.file = g.file
 	r.node = n
+	r.path = g.absPath(name)
 	return r, nil
 }
 
@@ -453,6 +463,7 @@ func (g *CommonFG) CreateGroup(name string) (*Group, error) {
 	r := &Group{}
 	r.file = g.file
 	r.node = n
+	r.path = g.absPath(name)
 	return r, nil
 }
 
@@ -500,7 +511,7 @@ func (g *CommonFG) OpenDataset(name string) (*Dataset, error) {
 	if n == nil || n.IsGroup {
 		return nil, fmt.Errorf("hdf5: unable to open dataset %q", name)
 	}
-	return &Dataset{file: g.file, node: n}, nil
+	return &Dataset{file: g.file, node: n, path: g.absPath(name)}, nil
 }
 
 func (g *CommonFG) CreateDataset(name string, dtype *Datatype, dspace *Dataspace) (*Dataset, error) {
@@ -543,8 +554,8 @@ func (g *CommonFG) createDataset(name string, dtype *Datatype, dspace *Dataspace
 	}
 	n.Data = make([]byte, total*n.ElemSize) // zero fill: library default
 	parent.addChild(n)
-	oplog("createdataset %s %s dims=%v", g.file.path, name, dspace.dims)
-	return &Dataset{file: g.file, node: n}, nil
+	oplog("createdataset %s %s dims=%v", g.file.path, g.absPath(name), dspace.dims)
+	return &Dataset{file: g.file, node: n, path: g.absPath(name)}, nil
 }
 
 func (s *Dataset) Close() error {
@@ -729,9 +740,9 @@ func toUint(d []uint64) []uint {
 func (s *Dataset) ReadSubset(data interface{}, memspace, filespace *Dataspace) error {
 	enter("Dataset.Read", false)
 	if filespace != nil && filespace.sel != nil {
-		oplog("read %s %s off=%v stride=%v count=%v block=%v", s.file.path, s.node.Name, filespace.sel.offset, filespace.sel.stride, filespace.sel.count, filespace.sel.block)
+		oplog("read %s %s off=%v stride=%v count=%v block=%v", s.file.path, s.path, filespace.sel.offset, filespace.sel.stride, filespace.sel.count, filespace.sel.block)
 	} else {
-		oplog("read %s %s all", s.file.path, s.node.Name)
+		oplog("read %s %s all", s.file.path, s.path)
 	}
 	return s.transfer(false, data, memspace, filespace)
 }
@@ -746,9 +757,9 @@ func (s *Dataset) WriteSubset(data interface{}, memspace, filespace *Dataspace) 
 		return errors.New("hdf5: file not writable")
 	}
 	if filespace != nil && filespace.sel != nil {
-		oplog("write %s %s off=%v stride=%v count=%v block=%v", s.file.path, s.node.Name, filespace.sel.offset, filespace.sel.stride, filespace.sel.count, filespace.sel.block)
+		oplog("write %s %s off=%v stride=%v count=%v block=%v", s.file.path, s.path, filespace.sel.offset, filespace.sel.stride, filespace.sel.count, filespace.sel.block)
 	} else {
-		oplog("write %s %s all", s.file.path, s.node.Name)
+		oplog("write %s %s all", s.file.path, s.path)
 	}
 	return s.transfer(true, data, memspace, filespace)
 }
